@@ -1,10 +1,13 @@
 import Okane.Model.Process
 import Okane.Model.Range
 import Okane.Model.InlineDisplay
+import Okane.Model.Query
+import Okane.Model.PriceDbFile
 /-!
-# The text of `okane balance`, `okane register`, `okane accounts` (mirror of `cli/src/cmd.rs` `BalanceCmd::run`,
-`RegisterCmd::run`, `AccountsCmd::run`, `cli/src/bin/okane.rs` `main`, and the `#[error(..)]` messages of
-`core/src/report/book_keeping.rs`, `eval/error.rs`, `balance.rs`)
+# The text of `okane balance` (with and without `-X`), `okane register`, `okane accounts`, `okane primitive eval`
+(mirror of `cli/src/cmd.rs` `BalanceCmd::run`, `RegisterCmd::run`, `AccountsCmd::run`, `EvalCmd::run`, `EvalOptions`,
+`cli/src/bin/okane.rs` `main`, and the `#[error(..)]` messages of `core/src/report/book_keeping.rs`, `eval/error.rs`,
+`balance.rs`, `query.rs`, `price_db.rs`)
 
 Executable, core only: this is what `drv c13 cmd` runs and what `bin/check C13` compares with the standard output /
 standard error of the real binary.  `Lemmas/CmdTextEq.lean` proves that these functions are the command models the C13
@@ -116,5 +119,122 @@ def run : Cmd → List Entry → Result
   | .balance r, es => finish (balanceLines r) (process es)
   | .register acct, es => finish (registerLines acct) (process es)
   | .accounts, es => .ok (unlines (accountsLines es))
+
+/-! ## `okane balance -X COMMODITY --now DATE [--historical] [--start ..] [--end ..] [--price-db FILE]`
+
+`BalanceCmd::run` with a conversion: `report::process` (book-keeping, then `load_price_db` when `--price-db` is given,
+then `build()`), `EvalOptions::to_conversion` (`ctx.commodity(ex)` — **after** the price db registered its commodities,
+so a commodity that only occurs in the price db is a valid `-X` target), `Ledger::balance`, the `writeln!` loop.
+`cfg` stands for what the Rust leaves to `BinaryHeap` (`pick`) and, before fix b2e85da, to the hasher (`ord`). -/
+
+/-- the options of a converting `okane balance`. -/
+structure XOpts where
+  exchange : String
+  historical : Bool := false
+  now : Date
+  range : DateRange := {}
+  deriving Repr, Inhabited
+
+/-- how a converting run fails (exit status 1, nothing on standard output). -/
+inductive Fail where
+  /-- `failed to report` / `Caused by error: <title>` … : book-keeping error at an entry -/
+  | book (entry : Nat) (title : String)
+  /-- `failed to report` / `Caused by failed to load price DB …`: the price db does not parse (text not modelled) -/
+  | priceDb
+  /-- `failed to query` / `Caused by <text>` -/
+  | query (text : String)
+  deriving Repr, DecidableEq, Inhabited
+
+abbrev XResult := Outcome Fail String
+
+/-- `impl Display for ConversionError`: `SingleAmount`'s `Display` is `{value} {commodity}`, `NaiveDate`'s `%Y-%m-%d`. -/
+def convErrMsg : Price.ConvErr String → String
+  | .rateNotFound v target date =>
+    "commodity rate " ++ showEntry v.commodity v.value ++ " into " ++ target ++ " at " ++ date.fmtHyphen ++ " not found"
+
+/-- `impl Display for QueryError`, followed by the `Caused by` line of its source where it has one
+(`EvalFailed(#[from] EvalError)`; `main` prints the chain). -/
+def queryErrMsg : Query.QueryErr String → String
+  | .commodityNotFound name => "commodity " ++ name ++ " not found"
+  | .evalFailed e => "failed to evaluate the expr\nCaused by " ++ evalErrMsg e
+  | .conversionFailure e => "cannot convert amount: " ++ convErrMsg e
+
+/-- the second half of `report::process`: the price repository (ledger events, then the price db if any, then
+`build()`) and the commodity store after `load_price_db`. -/
+def loadRepo (dbText : Option (List Char)) (st : ProcState) :
+    Outcome Parse.ParseErr (Store × Price.Builder String) :=
+  match dbText with
+  | some text => PriceDbFile.processPriceDb st.events text st.ctx.commodities
+  | none =>
+    match Price.insertAll .ledger [] st.events with
+    | .ok b => .ok (st.ctx.commodities, Price.build b)
+    | .err _ => .panic "unreachable"
+    | .panic s => .panic s
+    | .fuelOut => .fuelOut
+
+/-- what `okane balance -X …` writes, given how book-keeping ended. -/
+def xFinish (cfg : Price.Cfg String) (dbText : Option (List Char)) (o : XOpts) :
+    Outcome (Nat × BkErrS) ProcState → XResult
+  | .ok st =>
+    match loadRepo dbText st with
+    | .ok (store, repo) =>
+      match Query.toConversion store (some o.exchange) o.historical o.now with
+      | .ok conv =>
+        match Query.balance st.ctx.prec ⟨cfg, repo, leS, leS⟩ st.txns st.bal ⟨conv, o.range⟩ with
+        | .ok bal => .ok (unlines (balanceReport leS leS id showEntry bal))
+        | .err e => .err (.query (queryErrMsg e))
+        | .panic s => .panic s
+        | .fuelOut => .fuelOut
+      | .err e => .err (.query (queryErrMsg e))
+      | .panic s => .panic s
+      | .fuelOut => .fuelOut
+    | .err _ => .err .priceDb
+    | .panic s => .panic s
+    | .fuelOut => .fuelOut
+  | .err (i, e) => .err (.book i (bkErrMsg e))
+  | .panic s => .panic s
+  | .fuelOut => .fuelOut
+
+/-- **`okane balance -X …`** as a function of the entries the loader delivers and the text of the price db. -/
+def runX (cfg : Price.Cfg String) (dbText : Option (List Char)) (o : XOpts) (es : List Entry) : XResult :=
+  xFinish cfg dbText o (process es)
+
+/-! ## `okane primitive eval --date DATE [-X COMMODITY] [--price-db FILE] -f FILE EXPR…`
+
+`EvalCmd::run`: `report::process` (with the price db), then `Ledger::eval(ctx, "(" + terms + ")", {date, exchange})`:
+resolve the `-X` commodity, parse the string (`expr = none`: it does not parse; the parser is the real one, see C08),
+evaluate read-only, convert, `writeln!("{}", result.as_inline_display())`. -/
+
+/-- `QueryError::ParseFailed` (the parse error behind it is not modelled here). -/
+def parseFailedMsg : String := "failed to parse the given value\nCaused by " ++ more
+
+/-- what `okane primitive eval …` writes, given how book-keeping ended. -/
+def evalFinish (cfg : Price.Cfg String) (dbText : Option (List Char)) (expr : Option VExpr) (date : Date)
+    (exchange : Option String) : Outcome (Nat × BkErrS) ProcState → XResult
+  | .ok st =>
+    match loadRepo dbText st with
+    | .ok (store, repo) =>
+      match expr with
+      | some e =>
+        match Query.eval ⟨cfg, repo, leS, leS⟩ store e date exchange with
+        | .ok a => .ok (unlines [showAmount a])
+        | .err e => .err (.query (queryErrMsg e))
+        | .panic s => .panic s
+        | .fuelOut => .fuelOut
+      | none =>
+        match exchange.map store.resolve with
+        | some none => .err (.query (queryErrMsg (.commodityNotFound (exchange.getD ""))))
+        | _ => .err (.query parseFailedMsg)
+    | .err _ => .err .priceDb
+    | .panic s => .panic s
+    | .fuelOut => .fuelOut
+  | .err (i, e) => .err (.book i (bkErrMsg e))
+  | .panic s => .panic s
+  | .fuelOut => .fuelOut
+
+/-- **`okane primitive eval …`** as a function of the entries, the text of the price db and the parsed expression. -/
+def runEval (cfg : Price.Cfg String) (dbText : Option (List Char)) (expr : Option VExpr) (date : Date)
+    (exchange : Option String) (es : List Entry) : XResult :=
+  evalFinish cfg dbText expr date exchange (process es)
 
 end Okane.CmdText
